@@ -140,17 +140,6 @@ Section DriverProofs.
   | sw_dropc sid h : single_write (CDropColl sid h)
   | sw_dropd sid db : single_write (CDropDb sid db).
 
-  (* find-one-and-modify with a projection, routed to an open session
-     transaction: the one case in which a reported error can leave the write
-     in place (inside that transaction, see DESIGN.md) *)
-  Definition projected_in_session (ds : dstate) (c : call) : Prop :=
-    match c with
-    | CFindOneAndUpdate sid _ _ _ _ (Some _) _ _ _
-    | CFindOneAndReplace sid _ _ _ _ (Some _) _ _
-    | CFindOneAndDelete sid _ _ _ (Some _) => routed ds sid <> None
-    | _ => False
-    end.
-
   Lemma txn_insert_nothing_noop c g h l o c' g' tr :
     txn_insert matchf c g h l o = (c', g', inl tr) -> t_modified tr = [] -> c' = c.
   Proof.
@@ -169,22 +158,22 @@ Section DriverProofs.
 
   (* the projection step: without a projection it never turns a success into
      an error; an error of the write itself is passed through *)
-  Lemma project_in_txn_inr proj after c0 g0 r c' g' k :
-    project_in_txn projectf proj after (c0, g0, r) = (c', g', inr k) ->
-    c' = c0 /\ (r = inr k \/ (proj <> None /\ exists tr, r = inl tr)).
+  Lemma project_in_txn_inr proj after cp c0 g0 r c' g' k :
+    project_in_txn projectf proj after cp (c0, g0, r) = (c', g', inr k) ->
+    (c' = c0 /\ r = inr k) \/ (c' = cp /\ proj <> None /\ exists tr, r = inl tr).
   Proof.
     unfold project_in_txn. destruct r as [tr|e].
     - destruct (reply_doc projectf proj (pick_doc tr after)) eqn:RD; intro H; inversion H; subst.
-      split; [reflexivity|]. right. split; [|eauto].
+      right. split; [reflexivity|]. split; [|eauto].
       intro Hp. subst proj. unfold reply_doc in RD. destruct (pick_doc tr after); simpl in RD; discriminate.
-    - intro H; inversion H; subst. split; [reflexivity|]. left; reflexivity.
+    - intro H; inversion H; subst. left. split; reflexivity.
   Qed.
 
   Theorem step_error_noop ds c ds' e :
-    single_write c -> ~ projected_in_session ds c ->
+    single_write c ->
     step ds c = (ds', RErr e) -> same_views ds ds'.
   Proof.
-    intros SW NP. destruct SW; simpl in *.
+    intros SW. destruct SW; simpl in *.
     - (* insertOne *)
       destruct (use_write ds sid _) as [ds1 r] eqn:U. intro H; inversion H; subst; clear H.
       eapply use_write_noop_if; [exact U|].
@@ -230,11 +219,10 @@ Section DriverProofs.
           -- inversion U.
       + destruct (routed ds sid) as [tc|] eqn:R.
         * (* routed: excluded unless there is no projection *)
-          destruct p as [pp|]; [exfalso; apply NP; congruence|].
           eapply use_write_noop_if; [exact U|].
           intros c c' g' F; cbv beta in F.
           destruct (txn_update matchf applyf extractf c (ds_gen ds) h q s u 0 1 up afs now) as [[c1 g1] r1] eqn:TU.
-          apply project_in_txn_inr in F. destruct F as [-> [->|[Hp _]]]; [|congruence].
+          apply project_in_txn_inr in F. destruct F as [[-> ->]|[-> _]]; [|reflexivity].
           eapply txn_update_error_noop; eauto.
         * eapply use_write_error_unrouted; eauto.
     - (* findOneAndReplace *)
@@ -254,11 +242,10 @@ Section DriverProofs.
           -- destruct (reply_doc projectf p (pick_doc tr af)) eqn:RD; inversion U.
           -- inversion U.
       + destruct (routed ds sid) as [tc|] eqn:R.
-        * destruct p as [pp|]; [exfalso; apply NP; congruence|].
-          eapply use_write_noop_if; [exact U|].
+        * eapply use_write_noop_if; [exact U|].
           intros c c' g' F; cbv beta in F.
           destruct (txn_replace matchf applyf extractf c (ds_gen ds) h q s r up now) as [[c1 g1] r1] eqn:TU.
-          apply project_in_txn_inr in F. destruct F as [-> [->|[Hp _]]]; [|congruence].
+          apply project_in_txn_inr in F. destruct F as [[-> ->]|[-> _]]; [|reflexivity].
           eapply txn_replace_error_noop; eauto.
         * eapply use_write_error_unrouted; eauto.
     - (* findOneAndDelete *)
@@ -277,11 +264,10 @@ Section DriverProofs.
           -- destruct (reply_doc projectf p (pick_doc tr false)) eqn:RD; inversion U.
           -- inversion U.
       + destruct (routed ds sid) as [tc|] eqn:R.
-        * destruct p as [pp|]; [exfalso; apply NP; congruence|].
-          eapply use_write_noop_if; [exact U|].
+        * eapply use_write_noop_if; [exact U|].
           intros c c' g' F; cbv beta in F.
           destruct (txn_delete matchf c (ds_gen ds) h q s 0 1) as [[c1 g1] r1] eqn:TU.
-          apply project_in_txn_inr in F. destruct F as [-> [->|[Hp _]]]; [|congruence].
+          apply project_in_txn_inr in F. destruct F as [[-> ->]|[-> _]]; [|reflexivity].
           eapply txn_delete_error_noop; eauto.
         * eapply use_write_error_unrouted; eauto.
     - (* createIndex *)
